@@ -376,6 +376,7 @@ fn main() {
                         rep.add("obs_quiescent_points", seen.quiescent_points);
                         rep.add("obs_stops_completed", seen.stops_completed);
                         rep.add("obs_undetected_fault_scenarios", seen.undetected_fault_scenarios);
+                        rep.add("obs_hammer_scenarios", seen.hammer_scenarios);
                         rep.rule = "fault sequences on a real server, workers 1..3 x limit 1..3 x {Actix, Tokio}: victims (one, or two at once) idle / partially loaded / saturated; fault = panic in call, panic in poll_ready woken through its waker, readiness error whose re-creation fails; \
                                     victim's connections closed before the fault / after it / after detection / never; replacement factory delay 0/300/500 ms; a failpoint delays the victim's availability notification by 0/150/400 ms (late notification relative to detection and replacement); \
                                     a fixed regression corpus of 24 double-fault histories (saturated second victim, slow replacement, delayed notification) is always run first (quick samples it), thorough walks it completely. \
